@@ -186,10 +186,20 @@ def start_task():
 ALL = [complete_task, start_task]
 
 
+def _generic_obls(u):
+    """Obligations every handler unit carries: the frame on the optimistic-lock version (C07; for the stage starter also C04)."""
+    tag = u.name.split("/")[-1]
+    out = [Obl(f"C07/version-from-load/{tag}", P.version_from_load, when="any")]
+    if "StartStage" in u.name:
+        out.append(Obl(f"C04/version-from-load/{tag}", P.version_from_load, when="any"))
+    return out
+
+
 def units_for(prop: str):
     out = []
     for mk in ALL:
         u = mk()
+        u.obligations = list(u.obligations) + _generic_obls(u)
         u.obligations = [o for o in u.obligations if o.name.startswith(prop + "/")]
         if u.obligations:
             u.prop = prop
